@@ -745,6 +745,10 @@ pub fn run_c10(args: &Args) -> Report {
                 bad.push(format!("`{f}` (created by clean)"));
             }
         }
+        // directories: txtpp never creates or removes one (model: C10.directories_never_change)
+        for d in c.imp.after.dirs.symmetric_difference(&c.before.dirs) {
+            bad.push(format!("directory `{d}` ({})", if c.before.dirs.contains(d) { "removed" } else { "created" }));
+        }
         if !bad.is_empty() {
             viol(&mut rep, &runner, idx, format!("C10: {mode} created, modified or deleted {}", bad.join(", ")));
         }
